@@ -16,7 +16,7 @@ from concurrent.futures import ThreadPoolExecutor
 
 VERIF = "/verif"
 ALSO = {  # checks besides the seed's own property that are worth running
-    "C01": ["C03", "C02", "C17", "C09", "C13"], "C02": ["C03", "C13", "C01", "C06", "C12"], "C03": ["C01", "C09"], "C04": ["C06", "C15", "C07", "C08"], "C08": ["C06", "C07", "C16", "C17"], "C13": ["C01", "C02", "C05"],
+    "C01": ["C03", "C02", "C17", "C09", "C13"], "C02": ["C03", "C13", "C01", "C06", "C12"], "C03": ["C01", "C09", "C04"], "C04": ["C06", "C15", "C07", "C08"], "C08": ["C06", "C07", "C16", "C17"], "C13": ["C01", "C02", "C05"],
     "C15": ["C04"], "C16": ["C04", "C12"], "C06": ["C07", "C04"], "C07": ["C06", "C04", "C09"], "C17": ["C08"], "C12": [], "C09": [], "C10": [], "C11": [],
     "C14": ["C01"], "C18": [], "C19": ["C08", "C17"], "C05": ["C13"],
 }
